@@ -11,7 +11,8 @@ RULE = ("op sequences for engine mt (real MetricTable: AddRaw via both entry poi
         "keys, carried-over tables, renames collapsing several names into one. Batch `rules` (engine rules: the real NewMetricRulesFromJSON + MetricRules.Apply): 1-5 rules with distinct eval_order over a three-letter alphabet (anchored / unanchored literals, each_segment, replace_all, terminate_chain, ignore, replacements that contain the expression again), names of 1-4 segments in mixed case. Non-trivial = some key received >= 2 contributions "
         "or a rename collapsed two names; distinct = distinct op lists.")
 ASSUMPTIONS = ["exact integer arithmetic: the generator produces integer-valued floats below 2^53; float rounding is not modelled",
-               "rule expressions are literals with optional ^ / $ anchors and replacements without back-references; character classes, groups and back-references of Go's regexp are not modelled"]
+               "rule expressions (batch rx): literals, character classes, groups, alternation, greedy * + ?, anchors, empty matches, Perl-style and $-style back-references are modelled and generated; non-greedy and counted repetition, assertions, non-ASCII case folding and multi-byte names are neither",
+               "batch rules: literal expressions with optional anchors (the older engine, kept)"]
 EXPLANATION = "Theorems about MData.agg / table lookup / ApplyRules in Lean; exact canonical table equality with the real MetricTable after every op; ledger Spec on the implementation."
 TECHNIQUE = "Lean 4 theorems (commutativity/associativity, permutation invariance via List.Perm, lookup = combination of contributions, ApplyRules loses nothing) + differential correspondence with ledger Spec on the real MetricTable"
 LEVEL_TEXT = ("Machine-checked proofs that aggregation is commutative/associative, that the table value for every key is the "
